@@ -330,7 +330,8 @@ def main(argv=None):
         cs = [c for c in cs if args.only in c["name"]]
     describe = dict(
         level="other",
-        rule="15 step programs (broadcasting, views, views of views, set-item, in-place on views, out=/where=, shape assignment, sequence ops, "
+        rule="18 step programs (incl. three with chains of views that L does not consume around an in-place update) and 9 between-iteration actions (the 6 "
+             "listed next plus advanced-index, boolean-mask copy and use as a set-item value); originally: 15 step programs (broadcasting, views, views of views, set-item, in-place on views, out=/where=, shape assignment, sequence ops, "
              "einsum, softmax, maximum, diamond) x 6 things done between iterations (nothing, null_grad, view creation, non-view re-use, "
              "in-place update, another backward) x 2 (thorough 3) iterations; every feasible path",
         explanation="(iv) is the solver part: the gradient terms of every later iteration are structurally identical (same unsimplified term DAG "
